@@ -9,7 +9,14 @@ object) x every subset of None positions at lengths 0..4 x
   * every comparison (== != < <= > >=) in the same forms, incl. date vectors against date, str and
     datetime operands;
   * every reduction (sum, mean, min, max, stdev, any, all) and len;
-  * isna / dropna / fillna(x) for x in a 10-value pool (None, narrower, same, wider, incompatible).
+  * isna / dropna / fillna(x) for x in a 10-value pool (None, narrower, same, wider, incompatible);
+  * float NaN as an element (a value, not a missing one) of float, complex and object vectors: every
+    sequence over {value, NaN, None} at lengths 0..4 through isna / dropna / fillna(x) (x also NaN / inf),
+    each against the list and the three against one another position by position;
+  * per-group aggregates: aggregate() and window() with sum / mean / min / max / count / stdev over tables
+    of 1..3 groups drawn from 9 group shapes (one None row, all None, one real value, None before / after /
+    between values ...), rows grouped or interleaved, six value kinds: every group's value against the
+    textbook value of its non-None values and against the Vector reduction of the same group.
 Oracle: plain Python over the list (None-free list for reductions).  Where Python itself does not
 define the scalar operation (TypeError ...) or the statement gives no value (min/max of nothing,
 fillna with an incompatible kind that is rejected) the case is skipped.
@@ -122,7 +129,80 @@ def vectors(dt):
                 yield vals, True, m
 
 
+# ---- NaN is a value ------------------------------------------------------------------------------
+NAN = float('nan')
+NAN_POOLS = {
+    # dt -> (real values by position, extra fill values)
+    'float': [2.5, -1.0, 0.0, 4.25],
+    'object': [1, 'a', (1,), 2.5],
+    'complex': [1j, 2 + 0j, 0j, 1 + 1j],
+}
+NAN_FILL = [None, 0, 2.5, NAN, float('inf'), 'z', 1j]
+
+
+def nan_vectors(dt, tier):
+    base = NAN_POOLS[dt]
+    for n in range(5):
+        for pat in itertools.product('vnN', repeat=n):        # value / nan / None
+            if 'n' not in pat:
+                continue                                      # no NaN: the blocks above
+            if n == 4 and tier == 'quick' and pat.count('v') > 2:
+                continue
+            yield [base[i] if c == 'v' else (NAN if c == 'n' else None) for i, c in enumerate(pat)]
+
+
+# ---- per-group aggregates ------------------------------------------------------------------------
+AGGS = ['sum', 'mean', 'min', 'max', 'count', 'stdev']
+GROUP_SHAPES = ['N', 'NN', 'v', 'Nv', 'vN', 'vv', 'NvN', 'vNv', 'NNN']
+GROUP_POOLS = {
+    'int': [3, -1, 7, 0, 12, 5], 'float': [2.5, -1.0, 4.25, 0.5, 8.0, -3.5], 'bool': [True, False, True, True, False, False],
+    'complex': [1j, 2 + 0j, 1 + 1j, 3 + 0j, 2j, 1 - 1j], 'str': ['a', 'bc', 'b', '', 'zz', 'B'], 'date': [D, D2, D3, D4, D2, D],
+}
+GROUP_AGGS = {'int': AGGS, 'float': AGGS, 'bool': AGGS, 'complex': ['sum', 'mean', 'count', 'stdev'],
+              'str': ['min', 'max', 'count'], 'date': ['min', 'max', 'count']}
+
+
+def group_tables(tier):
+    one = [(a,) for a in GROUP_SHAPES]
+    two = [(a, b) for a in GROUP_SHAPES for b in GROUP_SHAPES]
+    third = GROUP_SHAPES if tier != 'quick' else ['N', 'v', 'NN']
+    three = [(a, b, c) for a in GROUP_SHAPES for b in GROUP_SHAPES for c in third]
+    return one + two, three
+
+
+def cases_strengthen(tier):
+    for dt in NAN_POOLS:
+        for vals in nan_vectors(dt, tier):
+            objs = [False, True] if dt != 'object' else [False]
+            for obj in objs:
+                extra = {'obj': True} if obj else {}
+                yield dict({'k': 'tri', 'dt': dt, 'a': lit(vals), 'typed': False, 'nan': 1}, **extra)
+                yield dict({'k': 'tri3', 'dt': dt, 'a': lit(vals), 'typed': False, 'nan': 1}, **extra)
+                for x in NAN_FILL:
+                    yield dict({'k': 'fill', 'dt': dt, 'a': lit(vals), 'typed': False, 'x': lit(x), 'nan': 1}, **extra)
+    small, big = group_tables(tier)
+    for fn in ('aggregate', 'window'):
+        for dt in GROUP_POOLS:
+            tabs = small + (big if tier != 'quick' or dt in ('int', 'float', 'str') else [])
+            for shapes in tabs:
+                for layout in ('grouped', 'interleaved'):
+                    if len(shapes) == 1 and layout == 'interleaved':
+                        continue
+                    for how in (('name',) if tier == 'quick' else ('name', 'vector')):
+                        yield {'k': 'grp', 'fn': fn, 'dt': dt, 'shapes': list(shapes), 'layout': layout, 'aggs': GROUP_AGGS[dt], 'how': how,
+                               'a': '[None]'}
+                        if len(shapes) <= 2 or tier != 'quick':
+                            for agg in GROUP_AGGS[dt]:
+                                yield {'k': 'grp', 'fn': fn, 'dt': dt, 'shapes': list(shapes), 'layout': layout, 'aggs': [agg], 'how': how,
+                                       'a': '[None]'}
+
+
 def cases(tier, seed):
+    yield from cases_base(tier, seed)
+    yield from cases_strengthen(tier)
+
+
+def cases_base(tier, seed):
     for dt in BASE:
         # ---- arithmetic
         for tag, partner, scalar in ARITH[dt]:
@@ -533,6 +613,8 @@ def widened(w, g):
         return False
     if type(w) is date and type(g) is datetime:
         return g == datetime.combine(w, datetime.min.time())
+    if type(w) is float and w != w and type(g) is complex:      # NaN carried up the ladder: nan -> (nan+0j)
+        return g.real != g.real and g.imag == 0
     return type(w) in NUM_LADDER and type(g) in NUM_LADDER and belongs(type(w), type(g)) and g == w
 
 
@@ -600,7 +682,186 @@ def eval_fill(case):
     return fails
 
 
-EVAL = {'arith': eval_arith, 'unary': eval_unary, 'cmp': eval_cmp, 'red': eval_red, 'tri': eval_tri, 'fill': eval_fill}
+def eval_tri3(case):
+    """isna / dropna / fillna on one vector, compared with one another position by position."""
+    dt = case['dt']
+    a = cev(case['a'])
+    src = vsrc(case)
+    try:
+        v = mkvec(a, dt, case['typed'], case.get('obj'))
+    except Exception:
+        return []                                   # reported by the 'tri' case of the same vector
+    sentinel = 99.5
+    try:
+        m, d, f = list(v.isna()), list(v.dropna()), list(v.fillna(sentinel))
+    except Exception:
+        return []                                   # each call is examined alone by 'tri' / 'fill'
+    cur = list(v)
+    fails = []
+    if len(m) != len(cur) or len(f) != len(cur):
+        return []
+    kept = [x for x, isn in zip(cur, m) if not isn]
+    if not same(d, kept):
+        fails.append(Fail('C06:triangle:dropna-vs-isna', f'{src}: dropna() = {d!r} but isna() = {m!r} marks {kept!r} as present', kept, d))
+    replaced = [not same(x, y) for x, y in zip(cur, f)]
+    if replaced != [bool(x) for x in m]:
+        fails.append(Fail('C06:triangle:fillna-vs-isna', f'{src}: fillna({sentinel}) = {f!r} replaces positions {replaced!r} but isna() = {m!r}', m, replaced))
+    if len(d) != len(cur) - sum(replaced):
+        fails.append(Fail('C06:triangle:fillna-vs-dropna', f'{src}: fillna replaces {sum(replaced)} positions, dropna removes {len(cur) - len(d)}',
+                          len(cur) - sum(replaced), len(d)))
+    return fails
+
+
+def group_rows(case):
+    """[(key, value)] rows of the table, and {key: [values]} in row order."""
+    pool = GROUP_POOLS[case['dt']]
+    per = []
+    for j, shape in enumerate(case['shapes']):
+        vals, k = [], 0
+        for c in shape:
+            if c == 'N':
+                vals.append(None)
+            else:
+                vals.append(pool[(2 * j + k) % len(pool)])
+                k += 1
+        per.append((f'g{j}', vals))
+    rows = []
+    if case['layout'] == 'grouped':
+        for key, vals in per:
+            rows += [(key, x) for x in vals]
+    else:
+        for i in range(max(len(v) for _, v in per)):
+            for key, vals in per:
+                if i < len(vals):
+                    rows.append((key, vals[i]))
+    return rows, dict(per)
+
+
+def textbook(agg, nn):
+    """Value of the aggregate on the None-free list; Ellipsis when the statement gives none."""
+    if agg == 'sum':
+        return sum(nn)
+    if agg == 'count':
+        return len(nn)
+    if agg == 'mean':
+        return sum(nn) / len(nn) if nn else None
+    if agg in ('min', 'max'):
+        return (min if agg == 'min' else max)(nn) if nn else Ellipsis
+    if len(nn) < 2:
+        return None
+    m = sum(nn) / len(nn)
+    return (sum((x - m) * (x - m) for x in nn) / (len(nn) - 1)) ** 0.5
+
+
+def agree(g, w):
+    if g is None or w is None:
+        return g is w
+    if isinstance(g, bool) or isinstance(w, bool) or not isinstance(g, (int, float, complex)):
+        return same(g, w)
+    if isinstance(g, int) and isinstance(w, int):
+        return same(g, w)
+    return type(g) is type(w) and abs(g - w) <= 1e-9 * max(1.0, abs(w))
+
+
+def run_group(case, rows):
+    dt = case['dt']
+    keys = [k for k, _ in rows]
+    vals = [x for _, x in rows]
+    if all(x is None for x in vals):
+        vcol = Vector(vals, dtype=DataType(KIND[dt], nullable=True), name='v')
+    else:
+        vcol = Vector(vals, name='v')
+    t = Table([Vector(keys, name='g'), vcol])
+    kw = {}
+    for agg in case['aggs']:
+        kw[agg + '_over'] = 'v' if case['how'] == 'name' else t['v']
+    over = 'g' if case['how'] == 'name' else t['g']
+    return t, getattr(t, case['fn'])(over, **kw)
+
+
+def eval_grp(case):
+    fn, dt, aggs = case['fn'], case['dt'], case['aggs']
+    rows, groups = group_rows(case)
+    descr = f'Table(g={[k for k, _ in rows]!r}, v={lit([x for _, x in rows])}).{fn}(over=g, ' + ', '.join(f'{a}_over=v' for a in aggs) + ')'
+    has_none = any(x is None for _, x in rows)
+    s = f'{fn}.' + (aggs[0] if len(aggs) == 1 else 'all')
+    try:
+        t, res = run_group(case, rows)
+        before = None
+    except Exception as e:
+        if not has_none:
+            return []                               # not a None matter: C12 / C13
+        clean = [(k, x) for k, x in rows if x is not None]
+        if not clean:
+            pool = GROUP_POOLS[dt]
+            clean = [(k, pool[0]) for k, _ in rows]
+        try:
+            run_group(case, clean)
+        except Exception:
+            return []
+        cls = 'none-element-raises'
+        if any(all(x is None for x in g) for g in groups.values()):
+            cls = 'all-none-group-raises'
+        return [Fail(f'C06:{s}:{cls}', f'{descr} raised {type(e).__name__}: {e}; without the None rows it succeeds', None, repr(e))]
+    fails = []
+    if not isinstance(res, Table):
+        return [Fail(f'C06:{fn}:not-a-table', descr, None, res)]
+    cols = res.cols()
+    names = res.column_names()
+    try:
+        gkeys = list(cols[0])
+    except Exception:
+        return []
+    for agg in aggs:
+        cname = f'v_{agg}'
+        if names.count(cname) != 1:
+            continue                                # naming is C12 / C13's business
+        col = list(cols[names.index(cname)])
+        if len(col) != len(gkeys):
+            continue
+        for key, gvals in groups.items():
+            nn = [x for x in gvals if x is not None]
+            got = [c for k, c in zip(gkeys, col) if k == key]
+            if fn == 'aggregate' and len(got) != 1:
+                continue                            # one row per group is C12's business
+            if fn == 'window' and len(got) != len(gvals):
+                continue                            # one row per input row is C13's business
+            if not nn:
+                shape = 'all-none-group'
+            elif len(nn) != len(gvals):
+                shape = 'none-not-skipped'
+            else:
+                shape = 'wrong-value'
+            try:
+                want = textbook(agg, nn)
+            except Exception:
+                want = Ellipsis
+            if want is not Ellipsis:
+                bad = [g for g in got if not agree(g, want)]
+                if bad:
+                    fails.append(Fail(f'C06:{fn}.{agg}:{shape}', f'{descr}: group {key} holds {lit(gvals)}, v_{agg} = {bad[0]!r}; '
+                                      f'{agg} of its non-None values {lit(nn)} = {want!r}', want, bad[0]))
+                    continue
+            # the Vector reduction of the very same group
+            if agg == 'count':
+                continue
+            try:
+                gv = Vector(gvals) if nn else Vector(gvals, dtype=DataType(KIND[dt], nullable=True))
+                red = getattr(gv, agg)()
+            except Exception:
+                continue                            # the reduction gives no value (min of nothing ...)
+            bad = [g for g in got if not agree(g, red)]
+            if bad:
+                fails.append(Fail(f'C06:{fn}.{agg}:differs-from-Vector.{agg}', f'{descr}: group {key} holds {lit(gvals)}, v_{agg} = {bad[0]!r}; '
+                                  f'Vector({lit(gvals)}).{agg}() = {red!r}', red, bad[0]))
+    m = truthful(res)
+    if m:
+        fails.append(Fail(f'C03:{fn}:truthful', descr + ': ' + m, None, None))
+    return fails
+
+
+EVAL = {'arith': eval_arith, 'unary': eval_unary, 'cmp': eval_cmp, 'red': eval_red, 'tri': eval_tri, 'fill': eval_fill,
+        'tri3': eval_tri3, 'grp': eval_grp}
 
 
 def evaluate(case):
@@ -611,7 +872,12 @@ def evaluate(case):
 
 
 def nontrivial(case):
+    if case['k'] == 'grp':
+        return ('grp', case['fn'], case['dt'], tuple(case['shapes']), case['layout'], tuple(case['aggs']), case['how'])
     a = cev(case['a'])
+    if case.get('nan'):
+        pat = tuple('N' if x is None else ('n' if isinstance(x, float) and x != x else 'v') for x in a)
+        return (case['k'], case['dt'], pat, case.get('x'), case.get('obj'))
     nmask = tuple(x is None for x in a)
     if not any(nmask):
         return None
@@ -630,8 +896,10 @@ if __name__ == '__main__':
          rule='8 dtype pools (int, float, bool, complex, str, date, datetime, object) x every subset of None positions at lengths 0..4 '
               '(all-None and empty also as explicitly typed vectors) x {7 binary arithmetic operators in vector/scalar/list/reflected forms '
               'with None subsets on the other operand too, 3 unary operators, 6 comparisons in the same forms incl. date vs date/ISO-str/datetime, '
-              '7 reductions + len, isna/dropna, fillna with a 10-value pool}.  Oracle: Python on the list / the None-free list; '
+              '7 reductions + len, isna/dropna, fillna with a 10-value pool}; NaN-as-a-value sequences through isna/dropna/fillna and their '
+              'mutual agreement; aggregate()/window() sum/mean/min/max/count/stdev per group vs textbook and vs the Vector reduction.  Oracle: Python on the list / the None-free list; '
               'cases Python does not define are skipped.  distinct = cases with at least one None, by (operation, dtype, partner, form, None placement)',
          bound=lambda tier: {'max_len': 4, 'dtypes': 8, 'fill_pool': 10,
-                             'len4_right_masks': 'reduced (4 placements)' if tier == 'quick' else 'all 16'},
+                             'len4_right_masks': 'reduced (4 placements)' if tier == 'quick' else 'all 16',
+                             'nan_block': 'all sequences over {value, NaN, None}, lengths 0..4', 'groups': '1..3 groups from 9 shapes, 6 kinds'},
          nontrivial=nontrivial)
